@@ -104,6 +104,8 @@ class Ctx:
             return z3.is_true(z3.simplify(z3.InRe(t, R)))
         if z3.is_app(t) and t.decl().kind() == z3.Z3_OP_SEQ_CONCAT:
             return all(self.term_in_star(t.arg(i), R) for i in range(t.num_args()))
+        if z3.is_app(t) and t.decl().kind() == z3.Z3_OP_ITE:
+            return self.term_in_star(t.arg(1), R) and self.term_in_star(t.arg(2), R)
         L = self.lang_of.get(t.get_id())
         if L is not None:
             return lang_relation(L, R) is True
